@@ -9,7 +9,7 @@
      key size (AES-GCM / AES-GCM-SIV: 16 or 32 bytes, (X)ChaCha20-Poly1305: 32), and the
      full primitive of the key type is built with an EMPTY output prefix.
    An unparsable or wrongly sized DEK is an error.  The AES-CTR-HMAC DEK (a nested
-   proto) is covered only by the generic lifting theorems of proofs/EnvelopeProofs2.v.
+   proto) is model/EnvelopeDekEtm.v.
    No proofs here. *)
 From Coq Require Import List NArith Bool Arith.
 From Tink Require Import Bytes AeadFrame GcmSiv Envelope ProtoWire.
